@@ -121,6 +121,29 @@ Proof. induction es as [|[k v] t IH]; simpl; intros H; auto. inv H. inv H3. cons
 Lemma entries_snd_ok es : Forall item_ok (flat_entries es) -> Forall item_ok (map snd es).
 Proof. induction es as [|[k v] t IH]; simpl; intros H; auto. inv H. inv H3. constructor; auto. Qed.
 
+Lemma roll_ok n es es' : Forall item_ok es -> roll n es = Some es' -> Forall item_ok es'.
+Proof.
+  unfold roll. intros H. destruct (nth_error es n) eqn:E; [|discriminate]. intros X; inv X.
+  constructor; [eapply Forall_nth_error; eauto|apply Forall_remove_nth; assumption].
+Qed.
+Lemma reverse_top_ok n es es' : Forall item_ok es -> reverse_top n es = Some es' -> Forall item_ok es'.
+Proof.
+  unfold reverse_top. intros H. case_if; [discriminate|]. intros X; inv X.
+  apply Forall_app; split; [apply Forall_rev, Forall_firstn|apply Forall_skipn]; assumption.
+Qed.
+Lemma insert_at_ok n it es : Forall item_ok es -> item_ok it -> Forall item_ok (insert_at n it es).
+Proof.
+  intros. unfold insert_at. apply Forall_app; split; [apply Forall_firstn; assumption|].
+  constructor; [assumption|apply Forall_skipn; assumption].
+Qed.
+Lemma flat_entries_ok_nil : Forall item_ok (flat_entries []).
+Proof. constructor. Qed.
+
+Lemma zlen_set_nth {A} n (l : list A) v : zlen (set_nth n l v) = zlen l.
+Proof. unfold zlen. rewrite set_nth_length. reflexivity. Qed.
+Lemma default_of_ok t : item_ok (default_of t).
+Proof. unfold default_of. repeat case_if; simpl; try exact I; vm_compute; congruence. Qed.
+
 (* ---------- the postcondition ---------- *)
 Definition res_ok (r : option dres) : Prop :=
   match r with
@@ -142,60 +165,124 @@ Create HintDb vmok.
 #[export] Hint Extern 1 (slot_ok (Some _)) => simpl : vmok.
 #[export] Hint Extern 2 (zlen _ <= MaxItemSize) => (vm_compute; discriminate) : vmok.
 
-Ltac dok := eauto 8 with vmok.
-
-Lemma roll_ok n es es' : Forall item_ok es -> roll n es = Some es' -> Forall item_ok es'.
-Proof.
-  unfold roll. intros H. destruct (nth_error es n) eqn:E; [|discriminate]. intros X; inv X.
-  constructor; [eapply Forall_nth_error; eauto|apply Forall_remove_nth; assumption].
-Qed.
-Lemma reverse_top_ok n es es' : Forall item_ok es -> reverse_top n es = Some es' -> Forall item_ok es'.
-Proof.
-  unfold reverse_top. intros H. case_if; [discriminate|]. intros X; inv X.
-  apply Forall_app; split; [apply Forall_rev, Forall_firstn|apply Forall_skipn]; assumption.
-Qed.
-Lemma insert_at_ok n it es : Forall item_ok es -> item_ok it -> Forall item_ok (insert_at n it es).
-Proof.
-  intros. unfold insert_at. apply Forall_app; split; [apply Forall_firstn; assumption|].
-  constructor; [assumption|apply Forall_skipn; assumption].
-Qed.
-Lemma flat_entries_ok_nil : Forall item_ok (flat_entries []).
-Proof. constructor. Qed.
-#[export] Hint Resolve insert_at_ok flat_entries_ok_nil : vmok.
+Ltac dok :=
+  lazymatch goal with
+  | |- _ /\ _ => split; dok
+  | |- d_ok (push _ _) => apply push_ok; dok
+  | |- d_ok (push_counted _ _ _) => apply push_counted_ok; dok
+  | |- d_ok (push_noref _ _) => apply push_noref_ok; dok
+  | |- d_ok (push_new_buffer _ _) => apply push_new_buffer_ok; dok
+  | |- d_ok (d_add _ _) => apply d_add_ok; dok
+  | |- d_ok (d_remove _ _) => apply d_remove_ok; dok
+  | |- d_ok (d_remove_list _ _) => apply d_remove_list_ok; dok
+  | |- d_ok (d_add_list _ _) => apply d_add_list_ok; dok
+  | |- d_ok (set_heap ?d (d_heap ?d ++ [_])) => apply alloc_ok; dok
+  | |- d_ok (set_es _ _) => apply set_es_ok; dok
+  | |- d_ok (set_heap _ _) => apply set_heap_ok; dok
+  | |- d_ok (set_refs _ _) => apply set_refs_ok; dok
+  | |- d_ok (set_mem _ _ _) => apply set_mem_ok; dok
+  | |- d_ok (set_local _ _) => apply set_local_ok; dok
+  | |- d_ok (set_args _ _) => apply set_args_ok; dok
+  | |- d_ok (set_static _ _) => apply set_static_ok; dok
+  | |- d_ok (if _ then _ else _) => case_if; dok
+  | |- d_ok (match ?x with _ => _ end) => destruct x; dok
+  | |- d_ok _ => try assumption
+  | |- heap_ok (hset _ _ _) => apply hset_ok; dok
+  | |- heap_ok (d_heap _) => apply d_ok_heap; dok
+  | |- heap_ok _ => try assumption
+  | |- cell_ok (CBuf _) => cbn [cell_ok]; dok
+  | |- cell_ok (CSeq _ _) => cbn [cell_ok]; dok
+  | |- cell_ok (CMap _ _) => cbn [cell_ok]; dok
+  | |- slot_ok (Some _) => cbn [slot_ok]; dok
+  | |- slot_ok None => exact I
+  | |- slot_ok (d_local _) => apply d_ok_local; dok
+  | |- slot_ok (d_args _) => apply d_ok_args; dok
+  | |- slot_ok (d_static _) => apply d_ok_static; dok
+  | |- item_ok (default_of _) => apply default_of_ok
+  | |- item_ok (if _ then _ else _) => case_if; dok
+  | |- item_ok (IBytes _) => cbn [item_ok]; dok
+  | |- item_ok (IInt _) => first [assumption | cbn [item_ok]; first [assumption | vm_compute; reflexivity | idtac]]
+  | |- item_ok _ => first [assumption | exact I | idtac]
+  | |- Forall item_ok (_ ++ _) => apply Forall_app'; dok
+  | |- Forall item_ok (_ :: _) => constructor; dok
+  | |- Forall item_ok [] => constructor
+  | |- Forall item_ok (firstn _ _) => apply Forall_firstn; dok
+  | |- Forall item_ok (skipn _ _) => apply Forall_skipn; dok
+  | |- Forall item_ok (rev _) => apply Forall_rev'; dok
+  | |- Forall item_ok (remove_nth _ _) => apply Forall_remove_nth; dok
+  | |- Forall item_ok (set_nth _ _ _) => apply Forall_set_nth; dok
+  | |- Forall item_ok (repeat _ _) => apply Forall_repeat; dok
+  | |- Forall item_ok (removelast _) => apply Forall_removelast; dok
+  | |- Forall item_ok (insert_at _ _ _) => apply insert_at_ok; dok
+  | |- Forall item_ok (flat_entries (map_add _ _ _)) => apply map_add_ok; dok
+  | |- Forall item_ok (flat_entries (remove_nth _ _)) => apply entries_remove_ok; dok
+  | |- Forall item_ok (flat_entries []) => constructor
+  | |- Forall item_ok (map fst _) => apply entries_fst_ok; dok
+  | |- Forall item_ok (map snd _) => apply entries_snd_ok; dok
+  | |- Forall item_ok (d_es _) => apply d_ok_es; dok
+  | |- Forall item_ok _ => try assumption
+  | |- zlen (msg_out_of_range _) <= MaxItemSize => apply msg_out_of_range_ok
+  | |- zlen (set_nth _ _ _) <= MaxItemSize => rewrite zlen_set_nth; dok
+  | |- zlen (rev _) <= MaxItemSize => rewrite zlen_rev; dok
+  | |- zlen (firstn _ _) <= MaxItemSize => etransitivity; [apply zlen_firstn|]; dok
+  | |- zlen (skipn _ _) <= MaxItemSize => etransitivity; [apply zlen_skipn|]; dok
+  | |- zlen (repeat _ _) <= MaxItemSize => rewrite zlen_repeat; try lia
+  | |- zlen (_ ++ _) <= MaxItemSize => rewrite zlen_app; try lia
+  | |- zlen (slice _ _ _) <= MaxItemSize => unfold slice; dok
+  | |- zlen _ <= MaxItemSize => first [assumption | lia | vm_compute; discriminate | idtac]
+  | |- _ => idtac
+  end.
 
 Ltac notknown P := lazymatch goal with H : P |- _ => fail | _ => idtac end.
 
 (* learn what the monadic primitives give *)
 Ltac learn :=
   repeat match goal with
-  | H : d_ok ?d, E : pop ?d = Some (_, _) |- _ => destruct (pop_ok _ _ _ H E); clear E
-  | H : d_ok ?d, E : pop_noref ?d = Some (_, _) |- _ => destruct (pop_noref_ok _ _ _ H E); clear E
-  | H : d_ok ?d, E : pop_int ?d = Some (_, _) |- _ => pose proof (pop_int_ok _ _ _ H E); clear E
-  | H : d_ok ?d, E : pop_i32 ?d = Some (_, _) |- _ => pose proof (pop_i32_ok _ _ _ H E); clear E
-  | H : d_ok ?d, E : pop_bool ?d = Some (_, _) |- _ => pose proof (pop_bool_ok _ _ _ H E); clear E
-  | H : d_ok ?d, E : pop_bytes ?d = Some (_, _) |- _ => destruct (pop_bytes_ok _ _ _ H E); clear E
-  | H : d_ok ?d, E : push_int _ ?d = Some _ |- _ => pose proof (push_int_ok _ _ _ H E); clear E
+  | E : pop ?d = Some (_, _) |- _ =>
+      let K := fresh "K" in assert (K : d_ok d) by dok; destruct (pop_ok _ _ _ K E); clear E; try clear K
+  | E : pop_noref ?d = Some (_, _) |- _ =>
+      let K := fresh "K" in assert (K : d_ok d) by dok; destruct (pop_noref_ok _ _ _ K E); clear E
+  | E : pop_int ?d = Some (_, _) |- _ =>
+      let K := fresh "K" in assert (K : d_ok d) by dok; pose proof (pop_int_ok _ _ _ K E); clear E
+  | E : pop_i32 ?d = Some (_, _) |- _ =>
+      let K := fresh "K" in assert (K : d_ok d) by dok; pose proof (pop_i32_ok _ _ _ K E); clear E
+  | E : pop_bool ?d = Some (_, _) |- _ =>
+      let K := fresh "K" in assert (K : d_ok d) by dok; pose proof (pop_bool_ok _ _ _ K E); clear E
+  | E : pop_bytes ?d = Some (_, _) |- _ =>
+      let K := fresh "K" in assert (K : d_ok d) by dok; destruct (pop_bytes_ok _ _ _ K E); clear E
+  | E : push_int _ ?d = Some _ |- _ =>
+      let K := fresh "K" in assert (K : d_ok d) by dok; pose proof (push_int_ok _ _ _ K E); clear E
   | E : get_seq ?h _ = Some (_, ?its) |- _ =>
-      assert (Forall item_ok its) by (eapply get_seq_ok; [|exact E]; eauto 8 with vmok); clear E
+      assert (Forall item_ok its) by (eapply get_seq_ok; [|exact E]; dok); clear E
   | E : get_map ?h _ = Some (_, ?es) |- _ =>
-      assert (Forall item_ok (flat_entries es)) by (eapply get_map_ok; [|exact E]; eauto 8 with vmok); clear E
+      assert (Forall item_ok (flat_entries es)) by (eapply get_map_ok; [|exact E]; dok); clear E
   | E : get_buf ?h _ = Some ?bs |- _ =>
-      assert (zlen bs <= MaxItemSize) by (eapply get_buf_ok; [|exact E]; eauto 8 with vmok); clear E
+      assert (zlen bs <= MaxItemSize) by (eapply get_buf_ok; [|exact E]; dok); clear E
   | E : try_bytes ?h ?it = Some ?bs |- _ =>
-      assert (zlen bs <= MaxItemSize) by (eapply try_bytes_ok; [| |exact E]; eauto 8 with vmok); clear E
+      assert (zlen bs <= MaxItemSize) by (eapply try_bytes_ok; [| |exact E]; dok); clear E
+  | F : Forall item_ok (_ :: _) |- _ => inv F
   | H : Forall item_ok ?l, E : nth_error ?l _ = Some ?x |- _ =>
       pose proof (Forall_nth_error _ _ _ _ H E); clear E
+  | E : nth_error (d_es ?d) _ = Some ?x |- _ =>
+      let K := fresh "K" in assert (K : Forall item_ok (d_es d)) by dok;
+      pose proof (Forall_nth_error _ _ _ _ K E); clear E K
+  | E : roll _ (d_es ?d) = Some _ |- _ =>
+      let K := fresh "K" in assert (K : Forall item_ok (d_es d)) by dok; pose proof (roll_ok _ _ _ K E); clear E K
+  | E : reverse_top _ (d_es ?d) = Some _ |- _ =>
+      let K := fresh "K" in assert (K : Forall item_ok (d_es d)) by dok; pose proof (reverse_top_ok _ _ _ K E); clear E K
   | H : Forall item_ok (flat_entries ?es), E : nth_error ?es _ = Some (_, _) |- _ =>
       destruct (entries_nth_ok _ _ _ _ H E); clear E
   | E : clone_if_struct ?h ?it = Some (_, _, _) |- _ =>
       let K := fresh "K" in
-      assert (K : heap_ok h /\ item_ok it) by (split; eauto 8 with vmok);
+      assert (K : heap_ok h /\ item_ok it) by (split; dok);
       destruct (clone_if_struct_ok _ _ _ _ _ (proj1 K) (proj2 K) E); clear E K
   | H : Forall item_ok ?es, E : roll _ ?es = Some _ |- _ => pose proof (roll_ok _ _ _ H E); clear E
   | H : Forall item_ok ?es, E : reverse_top _ ?es = Some _ |- _ => pose proof (reverse_top_ok _ _ _ H E); clear E
   | H : d_ok ?d, E : d_es ?d = _ |- _ =>
       let F := fresh "F" in pose proof (d_ok_es _ H) as F; rewrite E in F; clear E;
       repeat match goal with F : Forall item_ok (_ :: _) |- _ => inv F end
+  | H : Forall item_ok ?l, E : rev ?l = _ :: _ |- _ =>
+      let F := fresh "F" in pose proof (Forall_rev' _ _ H) as F; rewrite E in F; clear E; inv F
   | E : mk_int256 _ = Some _ |- _ => apply mk_int256_ok in E
   end.
 
